@@ -11,7 +11,7 @@ RULE = ('graphs over node sets {0}, {0,1}, {0,2} (gap), {0,1,2} (thorough: also 
         '{0,1,2,3}, five nodes with a gap and labelled three-node graphs, as stride samples): (G1) EVERY subset of the node pairs as '
         'unlabelled edges; (G2) on {0,1} every assignment of {absent, 5 '
         'labels} to the 4 node pairs; (G3) parallel edges with every pair '
-        'of labels; node labels from {none, y = 0, formula ~ x}; both '
+        'of labels; node labels from {none, y = 0, formula ~ x, x => (y > 0), x <=> (y = 1)}; both '
         'owners, self_loops x2, ignore_initial x2, initial sets rotating '
         'over all non-empty subsets. graph_to_logic is compared over ALL '
         'valuations of (nd, x, y, nd\', x\', y\') of the full bit ranges with '
@@ -28,7 +28,8 @@ VARS = dict(x='bool', y=(0, 2))
 ENV_VARS = ['x']
 ELABELS = [None, {"x'": True}, {"y'": 1}, {'formula': "y' = y"},
            {'formula': "x => (y' > y)"}, {'x': False, "y'": 2}]
-NLABELS = [None, {'y': 0}, {'formula': '~ x'}]
+NLABELS = [None, {'y': 0}, {'formula': '~ x'},
+           {'formula': 'x => (y > 0)'}, {'formula': 'x <=> (y = 1)'}]
 OPTS = list(itertools.product(['sys', 'env'], [False, True], [False, True]))
 
 
@@ -120,6 +121,13 @@ def cases(shard):
             yield dict(nodes=nodes, edges=edges, nlabels=nl, owner=owner,
                        self_loops=sl, ignore_initial=ign,
                        initial=_subsets(nodes)[i % 7], receptive=False)
+            if i % 3 == 0:
+                # node labels that are a lone formula with a loosely
+                # binding top-level operator
+                nl = {k: 3 + (i + k) % 2 for k in nodes if (i + k) % 3}
+                yield dict(nodes=nodes, edges=edges, nlabels=nl,
+                           owner=owner, self_loops=sl, ignore_initial=ign,
+                           initial=_subsets(nodes)[i % 7], receptive=False)
     elif shard['kind'] == 'G2':
         nodes = [0, 1]
         pairs = list(itertools.product(nodes, nodes))
@@ -150,6 +158,20 @@ def cases(shard):
                            nlabels={}, owner=owner, self_loops=sl,
                            ignore_initial=False, initial=[0],
                            receptive=False)
+        # node labels that are a lone formula with a loosely binding
+        # top-level operator, on every two-node graph
+        nodes = [0, 1]
+        pairs = list(itertools.product(nodes, nodes))
+        for m in range(16):
+            edges = [[u, v, (m + i) % 6 or None]
+                     for i, (u, v) in enumerate(pairs) if m >> i & 1]
+            for j, (owner, sl, ign) in enumerate(OPTS):
+                for nl in ({0: 3}, {1: 4}, {0: 4, 1: 3}, {0: 1, 1: 3}):
+                    yield dict(nodes=nodes, edges=edges, nlabels=nl,
+                               owner=owner, self_loops=sl,
+                               ignore_initial=ign,
+                               initial=[[0], [1], [0, 1]][(m + j) % 3],
+                               receptive=False)
 
 
 def run_case(case, acc):
